@@ -161,23 +161,22 @@ fn quiesce(p: &mut Proc, ctl: &mut Controller, out: &mut RunOut, grace: Duration
     }
 }
 
-fn send_msgs(p: &mut Proc, sc: &Scenario) -> Vec<i64> {
-    let mut ids = vec![];
-    let mut version = 1;
-    for (i, m) in sc.msgs.iter().enumerate() {
-        match m {
-            Msg::Req { method, params } => {
-                let id = 100 + i as i64;
-                p.send(&json!({"jsonrpc": "2.0", "id": id, "method": method, "params": params}));
-                ids.push(id);
-            }
-            Msg::Edit { changes } => {
-                version += 1;
-                p.send(&json!({"jsonrpc": "2.0", "method": "textDocument/didChange", "params": {"textDocument": {"uri": doc_uri(), "version": version}, "contentChanges": changes}}));
-            }
+/// Sends message `i` of the scenario (document versions count the edits sent so far).
+fn send_msg(p: &mut Proc, sc: &Scenario, i: usize) {
+    match &sc.msgs[i] {
+        Msg::Req { method, params } => {
+            let id = 100 + i as i64;
+            p.send(&json!({"jsonrpc": "2.0", "id": id, "method": method, "params": params}));
+        }
+        Msg::Edit { changes } => {
+            let version = 2 + sc.msgs[..i].iter().filter(|m| matches!(m, Msg::Edit { .. })).count();
+            p.send(&json!({"jsonrpc": "2.0", "method": "textDocument/didChange", "params": {"textDocument": {"uri": doc_uri(), "version": version}, "contentChanges": changes}}));
         }
     }
-    ids
+}
+
+fn request_ids(sc: &Scenario) -> Vec<i64> {
+    sc.msgs.iter().enumerate().filter(|(_, m)| matches!(m, Msg::Req { .. })).map(|(i, _)| 100 + i as i64).collect()
 }
 
 fn prologue(p: &mut Proc, sc: &Scenario) {
@@ -220,13 +219,19 @@ pub fn run_schedule(sc: &Scenario, prefix: &[usize]) -> RunOut {
     ctl.trace.clear();
     // controlled phase
     ctl.auto_release_all = false;
-    let ids = send_msgs(&mut p, sc);
+    // The client is a participant of its own: "C" = deliver the next message of the scenario.
+    // After a send the client waits (a voluntary yield), so whoever runs next is not a preemption.
+    let ids = request_ids(sc);
+    let mut next_msg = 0usize;
     let mut last: Option<String> = None;
     let mut idle_rounds = 0;
     let grace = Duration::from_millis(2);
     loop {
         quiesce(&mut p, &mut ctl, &mut out, grace);
         let mut enabled: Vec<String> = ctl.parked.keys().cloned().collect();
+        if next_msg < sc.msgs.len() {
+            enabled.push("C".into());
+        }
         if enabled.is_empty() {
             idle_rounds += 1;
             let all = ids.iter().all(|i| out.responses.contains_key(i));
@@ -237,7 +242,7 @@ pub fn run_schedule(sc: &Scenario, prefix: &[usize]) -> RunOut {
         }
         idle_rounds = 0;
         // canonical order: the thread that ran last first, then ascending names (M < T..)
-        enabled.sort_by_key(|n| (Some(n) != last.as_ref(), if n == "M" { 0 } else { 1 }, n.trim_start_matches('T').parse::<u64>().unwrap_or(u64::MAX), n.clone()));
+        enabled.sort_by_key(|n| (Some(n) != last.as_ref(), if n == "C" { 0 } else if n == "M" { 1 } else { 2 }, n.trim_start_matches('T').parse::<u64>().unwrap_or(u64::MAX), n.clone()));
         let last_enabled = last.as_ref().map_or(false, |l| enabled.contains(l));
         let i = out.points.len();
         let choice = if i < prefix.len() { prefix[i] } else { 0 };
@@ -247,8 +252,14 @@ pub fn run_schedule(sc: &Scenario, prefix: &[usize]) -> RunOut {
         }
         let t = enabled[choice].clone();
         out.points.push(ChoicePoint { enabled: enabled.clone(), chosen: choice, last_enabled });
-        ctl.release(&t);
-        last = Some(t);
+        if t == "C" {
+            send_msg(&mut p, sc, next_msg);
+            next_msg += 1;
+            last = None;
+        } else {
+            ctl.release(&t);
+            last = Some(t);
+        }
         if out.points.len() > 200 {
             out.problems.push(("livelock".into(), "more than 200 scheduling decisions in one run".into()));
             break;
@@ -390,7 +401,8 @@ pub fn run(tier: Tier) -> i32 {
         return rep.finish();
     }
     let bound = tier.pick(1usize, 2usize);
-    let scs: Vec<Scenario> = scenarios().into_iter().take(tier.pick(4, 6)).collect();
+    // the four-message scenario multiplies the schedule count by ~10: thorough tier only
+    let scs: Vec<Scenario> = scenarios().into_iter().filter(|s| tier == Tier::Thorough || s.msgs.len() <= 3).collect();
     let mut distinct_traces: BTreeSet<String> = BTreeSet::new();
     let mut outcome_classes: BTreeSet<String> = BTreeSet::new();
     let mut total_runs = 0u64;
@@ -466,7 +478,7 @@ pub fn run(tier: Tier) -> i32 {
                 rep.violation(v);
             }
         }
-        l.bound = format!("all interleavings of the main loop's and the blocking tasks' yield points with <= {bound} preemptions; {} messages ({}); longest run {max_points} scheduling decisions; {rounds} deviation rounds", sc.msgs.len(), sc.msgs.iter().map(|m| match m { Msg::Req { method, .. } => method.rsplit('/').next().unwrap_or(method).to_string(), Msg::Edit { .. } => "didChange".into() }).collect::<Vec<_>>().join(", "));
+        l.bound = format!("all interleavings of the client's sends (C), the main loop's and the blocking tasks' yield points with <= {bound} preemptions (a send is a voluntary yield of the client); {} messages ({}); longest run {max_points} scheduling decisions; {rounds} deviation rounds", sc.msgs.len(), sc.msgs.iter().map(|m| match m { Msg::Req { method, .. } => method.rsplit('/').next().unwrap_or(method).to_string(), Msg::Edit { .. } => "didChange".into() }).collect::<Vec<_>>().join(", "));
         rep.layer(l);
     }
     rep.distinct_nontrivial = distinct_traces.len() as u64;
